@@ -169,7 +169,10 @@ def run(tier, replay=None):
     # a log the one order rejects is tried in the other
     rej_cf = tracebatch.validate(run_, "TraceContext", "TraceContext_cf.cfg", [it for it in items if not it[0].startswith("lega")])
     if rej_cf:
-        rej.update(tracebatch.validate(run_, "TraceContext", "TraceContext_body.cfg", [it for it in items if it[0] in rej_cf]))
+        try:
+            rej.update(tracebatch.validate(run_, "TraceContext", "TraceContext_body.cfg", [it for it in items if it[0] in rej_cf]))
+        except (common.Broken, tla.TLCError):
+            rej.update(rej_cf)     # the other order cannot even be evaluated on these logs: the first rejection stands
     for tid, (pos, line) in rej.items():
         if not had:
             raise common.Broken("TLC rejects stage log %s at %s although the comparison accepted it" % (tid, line))
